@@ -152,9 +152,11 @@ def r3_sorted_rows(run, w):
          endswith(dotted(n.stmt.value.func), "SortedListWithKey") and n.stmt.value.args and
          any(isinstance(x, ast.Attribute) and x.attr == SR and text(x.value) == p_other
              for x in ast.walk(n.stmt.value.args[0]))}
+  keyed = all(key_reads_storage(fn, fn.cfg.nodes[r].stmt.value) for r in reb)
   run.ob(R3, fn.qualname, "super().copy_from_column(o); self.%s = SortedListWithKey(o.%s[:], "
-         "key=...)" % (SR, SR), "a copied column takes over the source's sorted rows",
-         bool(base) and bool(reb) and fn.cfg.dominated_by(fn.cfg.exit.id, reb) and
+         "key=...)" % (SR, SR), "a copied column takes over the source's sorted rows, ordered "
+         "by the stored position like the original list",
+         bool(base) and bool(reb) and keyed and fn.cfg.dominated_by(fn.cfg.exit.id, reb) and
          all(fn.cfg.dominated_by(r, base) for r in reb), fi=fn.fi)
   # inherited storage writers must go through the overridden ones
   for m in E.COLUMN_MUTATORS:
@@ -218,6 +220,12 @@ def r4_prepare(run, w):
                                                 "SortedListWithKey") and v.args and depth < 4:
         out.extend(list_cases(v.args[0], flow.node_of(v), at, depth + 1))
       else:
+        if isinstance(v, ast.Call) or not isinstance(v, (ast.Name, ast.Attribute, ast.Subscript,
+                                                         ast.List, ast.Tuple, ast.Constant,
+                                                         ast.ListComp, ast.GeneratorExp,
+                                                         ast.SetComp, ast.BinOp)):
+          raise AnalysisError("PositionColumn.prepare_new_values: cannot follow the row list "
+                              "%s" % short(v, 70))
         out.append(("other:%s" % short(v, 50), at))
     return out
 
